@@ -141,10 +141,8 @@ func (e *Engine) registerIntrinsics(pkgPath string) {
 		if !ok {
 			panic(abortf("harness: unknown regex class %s", class))
 		}
-		if s.IsConst() {
-			return BoolC(matchClassConcrete(class, s.S))
-		}
-		return InRe(s, re)
+		_ = re
+		return InReOrConst(s, class)
 	})
 	reg("vrtLazy", func(x *Exec, fr *frame, a []Value) Value {
 		iv, ok := a[0].(*IfaceV)
